@@ -161,7 +161,7 @@ class YamlDocument(HierDictDocument):
 
             ctx.in_document = yaml.load(s, **self.in_kwargs)
 
-        except (yaml.YAMLError, ValueError, LookupError) as e:
+        except (yaml.YAMLError, ValueError, LookupError, AttributeError) as e:
             raise Fault('Client.YamlDecodeError', repr(e))
 
     def create_out_string(self, ctx, out_string_encoding='utf8'):
